@@ -48,6 +48,30 @@ def _is_simple_value(e):
     return False
 
 
+def resolve_local(fnode, e, depth=0):
+    """Follow a local of ``fnode`` that has exactly one binding, a plain assignment (tuple unpacking of a tuple display
+    included), to the expression it names; parameters and re-bound locals are left as they are."""
+    a = fnode.args
+    params = set(x.arg for x in a.posonlyargs + a.args + a.kwonlyargs) | set(x.arg for x in (a.vararg, a.kwarg) if x)
+    while isinstance(e, ast.Name) and depth < 6:
+        av = assigned_value(fnode, e.id)
+        if len(av) != 1 or e.id in params:
+            break
+        st, val, idx = av[0]
+        if not isinstance(st, ast.Assign):
+            break
+        if idx is None:
+            nxt = val
+        elif isinstance(idx, int) and isinstance(val, (ast.Tuple, ast.List)) and len(val.elts) > idx and \
+                not any(isinstance(x, ast.Starred) for x in val.elts):
+            nxt = val.elts[idx]
+        else:
+            break
+        e = nxt
+        depth += 1
+    return e
+
+
 class Defs(object):
     """Definitions of the plain locals of one function, on its CFG."""
 
@@ -290,23 +314,7 @@ class DispatchView(object):
     # -- data flow ---------------------------------------------------------------------------------------
     def resolve(self, e, depth=0):
         """Follow a local that has exactly one definition to the defining expression (tuple unpacking included)."""
-        while isinstance(e, ast.Name) and depth < 6:
-            av = assigned_value(self.fi.node, e.id)
-            if len(av) != 1 or e.id in self.defs.params:
-                break
-            st, val, idx = av[0]
-            if not isinstance(st, ast.Assign):
-                break
-            if idx is None:
-                nxt = val
-            elif isinstance(idx, int) and isinstance(val, (ast.Tuple, ast.List)) and len(val.elts) > idx and \
-                    not any(isinstance(x, ast.Starred) for x in val.elts):
-                nxt = val.elts[idx]
-            else:
-                break
-            e = nxt
-            depth += 1
-        return e
+        return resolve_local(self.fi.node, e, depth)
 
     def is_request_attr(self, e, attr):
         """``e`` is request.<attr> (directly or through single-definition locals)."""
